@@ -100,18 +100,33 @@ def check(run: core.Run) -> int:
             impl.append(list(toposort_edges(ets)))
         except Exception as e:  # networkx raises on cyclic input
             impl.append({"raises": type(e).__name__})
-    # PAFScorer.sorted_edge_inds on a subsample (it must equal toposort_edges)
+    # PAFScorer.__attrs_post_init__ on a subsample: edge_inds / edge_types / sorted_edge_inds / n_nodes / n_edges,
+    # through both constructors (__init__ and from_config with OmegaConf lists, the one BottomUpPredictor uses),
+    # dense and sparse node numberings (part names that occur in no edge), the oracle applied to the attribute itself
+    from omegaconf import OmegaConf
     n_scorer = 0
-    for kind, es in rng.sample(cases[:n_exh], 200):
-        nn = max(max(e) for e in es) + 1
-        sc = PAFScorer(part_names=[str(i) for i in range(nn)], edges=[(str(u), str(v)) for u, v in es],
-                       pafs_stride=2)
+    sub = rng.sample(cases[:n_exh], 200) + rng.sample(cases[n_exh:n_exh + n7], 200)
+    for q, (kind, es) in enumerate(sub):
+        nn = max(max(e) for e in es) + 1 + (q % 3 == 2)          # sometimes one more part than the edges mention
+        names = [f"p{i}" for i in range(nn)]
+        named = [(names[u], names[v]) for u, v in es]
+        if q % 2:
+            cfg = OmegaConf.create({"confmaps": {"part_names": names},
+                                    "pafs": {"edges": [list(e) for e in named], "output_stride": 2}})
+            sc = PAFScorer.from_config(cfg)
+        else:
+            sc = PAFScorer(part_names=names, edges=named, pafs_stride=2)
         got = list(sc.sorted_edge_inds)
         want = list(toposort_edges([EdgeType(u, v) for u, v in es]))
         n_scorer += 1
-        if got != want or [(e.src_node_ind, e.dst_node_ind) for e in sc.edge_types] != es:
-            run.violation("failing-input", {"what": "PAFScorer.sorted_edge_inds differs from toposort_edges",
-                                            "edges": es, "got": got, "want": want})
+        attrs_ok = ([(e.src_node_ind, e.dst_node_ind) for e in sc.edge_types] == es
+                    and [tuple(e) for e in sc.edge_inds] == es and sc.n_nodes == nn and sc.n_edges == len(es))
+        bad = oracle(es, got)
+        if got != want or not attrs_ok or bad:
+            run.violation("failing-input", {"what": "PAFScorer.sorted_edge_inds / edge_types differ from toposort_edges "
+                                                    "on the skeleton as written", "via": "from_config" if q % 2 else "init",
+                                            "edges": es, "got": got, "want": want, "oracle": bad,
+                                            "edge_inds": [list(e) for e in sc.edge_inds]})
     # model
     model = core.coq_eval_sharded(PREAMBLE, [term(es) for _, es in cases], "toposort",
                                   "ropt (rlist rnat)", shard=1500)
